@@ -26,7 +26,8 @@ def judge(ctx, paths, mism, verd):
             ctx.violation("%s:panic:%s" % (fn, act["mut"]), {"panic": real, "case": case}, mk.minimal(paths, pi, si))
         elif name == "VerifyCons" and real == act["resc"]:
             # the named deviations of the specification, reproduced on the real code
-            dev = "equal-roots-shortcut" if act["r1"] == act["r2"] else "old-size-zero-shortcut"
+            dev = ("old-size-zero-shortcut" if act["m"] == 0 else
+                   "equal-size-ignores-proof" if act["m"] == act["s"] else "equal-roots-shortcut")
             ctx.violation("%s:%s:altered-%s-accepted" % (fn, dev, act["mut"]),
                           {"case": case, "design": design, "real": real}, mk.minimal(paths, pi, si))
         elif real:
